@@ -6,7 +6,9 @@ package file
 // driven directly; no logic of file.d lives here.
 
 import (
+	"os"
 	"sync"
+	"syscall"
 	"time"
 
 	"github.com/ozontech/file.d/logger"
@@ -107,3 +109,17 @@ func VerifJobs(p *Plugin) map[uint64]map[string]int64 {
 type durationAlias = time.Duration
 
 func timeDuration(ns int64) durationAlias { return durationAlias(ns) }
+
+// VerifSourceID derives the source id of a plain (non-symlinked) file from its inode.
+func VerifSourceID(ino uint64) uint64 {
+	return uint64(sourceIDByStat(verifStat{ino: ino}, ""))
+}
+
+type verifStat struct{ ino uint64 }
+
+func (verifStat) Name() string       { return "" }
+func (verifStat) Size() int64        { return 0 }
+func (verifStat) Mode() os.FileMode  { return 0 }
+func (verifStat) ModTime() time.Time { return time.Time{} }
+func (verifStat) IsDir() bool        { return false }
+func (v verifStat) Sys() any         { return &syscall.Stat_t{Ino: v.ino} }
